@@ -11,7 +11,7 @@ import math
 import numpy as np
 
 from ..core import import_library
-from ..probe import Probe, Reach, check_unmutated, snapshot_arrays
+from ..probe import Probe, Reach, ResultKeeper, check_unmutated, snapshot_arrays
 from ..ref import norms as R
 
 WORKERS = {"quick": 1, "thorough": 16}
@@ -44,6 +44,7 @@ class NormMonitor:
         self.ctx, self.fl = ctx, fl
         self.table = {n: {} for n in R.REF} if table else None
         self.sel = __import__("random").Random(f"c04sel:{ctx.seed}:{ctx.shard}")
+        self.keeper = None  # ResultKeeper, set by the check's own workload
 
     def install(self, probe):
         for name in R.REF:
@@ -54,6 +55,8 @@ class NormMonitor:
         def after(args, kwargs, token, result, exc):
             a = check_unmutated(self.ctx, f"{name}.compute", args, token, 1)
             b = check_unmutated(self.ctx, f"{name}.compute", args, token, 2)
+            if self.keeper is not None and exc is None:
+                self.keeper.after_call(f"{name}.compute", result, args[1:3])
             self.judge(name, a, b, result, exc)
 
         return after
@@ -89,6 +92,7 @@ class NormMonitor:
             s = Ab + Bb
             idx |= set(np.argsort(np.abs(s - 1.0))[:32].tolist())
             idx |= set(np.argsort(np.minimum(Ab, Bb))[:16].tolist()) | set(np.argsort(-np.maximum(Ab, Bb))[:16].tolist())
+            idx |= set(range(48)) | set(range(n - 48, n))  # the two ends (the last, incomplete block of a block-wise evaluation)
             ctx.hit("elements_not_judged", n - len(idx))
         ref = R.REF[name]
         exact = name in R.EXACT
@@ -207,6 +211,7 @@ def run(ctx):
     with Reach(funcs) as reach, Probe() as probe:
         mon = NormMonitor(ctx, fl)
         mon.install(probe)
+        mon.keeper = ResultKeeper(ctx)
         names = list(R.REF)
         # 1. exhaustive grid: pairs through a broadcast call, a 1-D call per row, scalar calls on the diagonal
         for i, rnd in ctx.cases("grid", len(names)):
@@ -248,6 +253,20 @@ def run(ctx):
                     for b in extremes[::3]:
                         norm.compute(float(a), float(b))
                 ctx.hit("workload:pairs of extreme magnitudes")
+        # 1c. large batches: sizes on both sides of every power of two from 2^12 to 2^17 (block-wise fast paths), 1-D and as a
+        # transposed matrix; a sample of the elements is judged, always including both ends
+        sizes = [2**k + d for k in range(12, 18) for d in (0, 1)] + [100_000]
+        for i, rnd in ctx.cases("sizes", len(names)):
+            with ctx.guarded():
+                norm = getattr(fl, names[i])()
+                gen = np.random.default_rng(ctx.seed * 1000 + i)
+                for n in sizes:
+                    a, b = gen.random(n), gen.random(n)
+                    a[::97], b[::89] = 0.0, 1.0
+                    norm.compute(a, b)
+                    if n % 2 == 0:
+                        norm.compute(a.reshape(2, -1).T, b.reshape(2, -1).T)
+                    ctx.hit("workload:large batch")
         # 2. random doubles, several operand forms
         nchunks = ctx.scale(8, 64)
         for i, rnd in ctx.cases("random", len(names) * nchunks):
@@ -335,7 +354,7 @@ def run(ctx):
         reach.report(ctx)
     ctx.exhaustive = True
     ctx.extra["exhaustive_space"] = f"all pairs and triples of the dyadic grid k/2^{m} per norm (plus non-exhaustive random doubles)"
-    ctx.require("workload:pairs of extreme magnitudes", "operand form:transposed", "operand form:0-d with batch", "operand form:read-only row broadcast over a batch")
+    ctx.require("workload:large batch", "law:results of earlier calls left alone", "workload:pairs of extreme magnitudes", "operand form:transposed", "operand form:0-d with batch", "operand form:read-only row broadcast over a batch")
     for name in R.REF:
         ctx.require(f"hook:{name}.compute")
     if ctx.nshards == 1 or True:
